@@ -116,12 +116,14 @@ func (s *GRPCServer) Init() error {
 // Stop calls Stop on the underlying grpc.Server and Close on the underlying
 // grpc.Broker if present.
 func (s *GRPCServer) Stop() {
-	s.server.Stop()
-
+	// Close the broker first: once the server has stopped the process is
+	// free to exit, and the broker's listeners must be gone by then.
 	if s.broker != nil {
 		s.broker.Close()
 		s.broker = nil
 	}
+
+	s.server.Stop()
 }
 
 // GracefulStop calls GracefulStop on the underlying grpc.Server and Close on
